@@ -119,4 +119,73 @@ theorem T0x1206_Encode_total (fuel : Nat) (t_40 : model_T0x1206) : (model_T0x120
   simp only [model_T0x1206_Encode]
   go_total
 
+/-! ### decoders with a loop: one invariant each -/
+
+theorem isOk_bind {α β} (x : X α) (f : α → X β) (hx : x.isOk = true) (hf : ∀ r, (f r).isOk = true) : (x.bind f).isOk = true := by
+  cases x with
+  | ok r => exact hf r
+  | panic => simp [X.isOk] at hx
+  | fuel => simp [X.isOk] at hx
+
+/-- the re-request list of 0x8003: every id is read inside the body the length check admitted -/
+theorem P0x8003_loop_ok (j : jt808_JTMessage) (body : Bytes) : ∀ (fuel i : Nat) (p : model_P0x8003) (k : Int), k = (i : Int) →
+    i ≤ p.AgainPackageCount.toNat → body.length = 3 + 2 * p.AgainPackageCount.toNat → p.AgainPackageCount.toNat - i < fuel →
+    (model_P0x8003_Parse_loop1 fuel p j body k).isOk = true
+  | 0, _, _, _, _, _, _, h => by omega
+  | fuel + 1, i, p, k, hk, hi, hl, hf => by
+    subst hk
+    unfold model_P0x8003_Parse_loop1
+    simp only [slice, u16_ite, bind_ite', X.bind_ok, X.bind_panic, List.length_take, List.length_drop, X.isOk_ite_iff, X.isOk_ok,
+      X.isOk_panic, implies_true, and_true, true_and, decide_eq_true_eq, Int.ofNat_eq_natCast]
+    intro hlt
+    refine ⟨fun hs => ⟨fun h2 => ?_, fun h2 => ?_⟩, fun hs => ?_⟩
+    · exact P0x8003_loop_ok j body fuel (i + 1) _ _ (by omega) (by simp only []; omega) (by simp only []; omega) (by simp only []; omega)
+    · omega
+    · omega
+
+theorem P0x8003_Parse_total (fuel : Nat) (p : model_P0x8003) (j : jt808_JTMessage) (hf : j.Body.length < fuel) :
+    (model_P0x8003_Parse fuel p j).isOk = true := by
+  simp only [model_P0x8003_Parse, model_P0x8003_Parse_j3, model_P0x8003_Parse_j2]
+  simp only [sliceTo, slice, idx_ite, u16_ite, bind_ite', X.bind_ok, X.bind_panic, List.length_take, List.length_drop, X.isOk_ite_iff,
+    X.isOk_ok, X.isOk_panic, implies_true, and_true, true_and, decide_eq_true_eq, bne_iff_ne, ne_eq, Int.ofNat_eq_natCast, Decidable.not_not]
+  intro h3
+  refine ⟨fun a => ⟨fun b => ⟨fun c hlen => ?_, fun c => ?_⟩, fun b => ?_⟩, fun a => ?_⟩
+  all_goals (simp only [len_eq, Int.reduceToNat, Nat.sub_zero] at *)
+  · have hl : j.Body.length = 3 + 2 * (j.Body.getD 2 0).toNat := by omega
+    refine isOk_bind _ _ ?_ (fun r => rfl)
+    exact P0x8003_loop_ok j j.Body fuel 0 _ _ rfl (by simp only []; omega) (by simp only []; exact hl) (by simp only []; omega)
+  all_goals omega
+
+/-- the retransmit list of 0x9212: every (offset, length) pair is read inside the body the length check admitted -/
+theorem P0x9212_loop_ok (j : jt808_JTMessage) (body : Bytes) (l : Nat) : ∀ (fuel i : Nat) (p : model_P0x9212) (k : Int), k = (i : Int) →
+    i ≤ p.RetransmitPacketNumber.toNat → body.length = 4 + l + 8 * p.RetransmitPacketNumber.toNat →
+    p.RetransmitPacketNumber.toNat - i < fuel →
+    (model_P0x9212_Parse_loop1 fuel p j body (l : Int) k).isOk = true
+  | 0, _, _, _, _, _, _, h => by omega
+  | fuel + 1, i, p, k, hk, hi, hl, hf => by
+    subst hk
+    unfold model_P0x9212_Parse_loop1
+    simp only [sliceFrom, slice, u32_ite, bind_ite', X.bind_ok, X.bind_panic, List.length_take, List.length_drop, X.isOk_ite_iff, X.isOk_ok,
+      X.isOk_panic, implies_true, and_true, true_and, decide_eq_true_eq, Int.ofNat_eq_natCast, len_eq]
+    intro hlt
+    refine ⟨fun hs => ⟨fun h2 => ⟨fun hs2 => ⟨fun h3 => ?_, fun h3 => ?_⟩, fun hs2 => ?_⟩, fun h2 => ?_⟩, fun hs => ?_⟩
+    · exact P0x9212_loop_ok j body l fuel (i + 1) _ _ (by omega) (by simp only []; omega) (by simp only []; omega) (by simp only []; omega)
+    all_goals omega
+
+theorem P0x9212_Parse_total (fuel : Nat) (p : model_P0x9212) (j : jt808_JTMessage) (hf : j.Body.length < fuel) :
+    (model_P0x9212_Parse fuel p j).isOk = true := by
+  simp only [model_P0x9212_Parse, model_P0x9212_Parse_j4, model_P0x9212_Parse_j3, model_P0x9212_Parse_j2]
+  simp only [sliceTo, slice, idx_ite, u16_ite, bind_ite', X.bind_ok, X.bind_panic, List.length_take, List.length_drop, X.isOk_ite_iff,
+    X.isOk_ok, X.isOk_panic, implies_true, and_true, true_and, decide_eq_true_eq, bne_iff_ne, ne_eq, Int.ofNat_eq_natCast, Decidable.not_not]
+  intro h4
+  refine ⟨fun a => fun hl4 => ⟨fun b => ⟨fun c => ⟨fun d => ⟨fun e hlen => ?_, fun e => ?_⟩, fun d => ?_⟩, fun c => ?_⟩, fun b => ?_⟩, fun a => ?_⟩
+  all_goals (simp only [len_eq, Int.reduceToNat, Nat.sub_zero] at *)
+  · generalize hL : (j.Body.getD 0 0).toNat = L at *
+    have e3 : ((3 : Int) + (L : Int)).toNat = 3 + L := by omega
+    rw [e3] at hlen ⊢
+    have hl : j.Body.length = 4 + L + 8 * (j.Body.getD (3 + L) 0).toNat := by omega
+    refine isOk_bind _ _ ?_ (fun r => rfl)
+    exact P0x9212_loop_ok j j.Body L fuel 0 _ _ rfl (by simp only []; omega) (by simp only []; exact hl) (by simp only []; omega)
+  all_goals omega
+
 end JT.Gen.GoModel
